@@ -248,10 +248,11 @@ const (
 	byzNilContent
 	byzOtherContent
 	byzWrongContentThenShort
+	byzValidOtherType
 	byzKinds
 )
 
-var byzNames = []string{"silent", "duplicate", "re-encoded", "invalid", "foreign-request", "foreign-group", "short-signature", "nil-content", "other-content", "valid-share-under-other-content-then-short-signature"}
+var byzNames = []string{"silent", "duplicate", "re-encoded", "invalid", "foreign-request", "foreign-group", "short-signature", "nil-content", "other-content", "valid-share-under-other-content-then-short-signature", "valid-share-labelled-with-another-traffic-type-arriving-late"}
 
 type sysOutcome struct {
 	reports  [][]doubles.Report
@@ -422,6 +423,17 @@ func runQuerySystemWith(rng *hx.Rng, n int, lastRand, reqID, seed *big.Int, pTyp
 			m2 := proto.Clone(base).(*vss.Signature)
 			m2.Content, m2.Signature = oc, s2
 			send(b, m2)
+		case byzValidOtherType:
+			// a VALID share on the right content and request, its packet labelled with another traffic
+			// type, arriving after everybody else's (it may be the one that completes the threshold)
+			time.Sleep(250 * time.Millisecond)
+			m2 := proto.Clone(base).(*vss.Signature)
+			if pType == uint32(onchain.TrafficSystemRandom) {
+				m2.Index = uint32(onchain.TrafficUserRandom)
+			} else {
+				m2.Index = uint32(onchain.TrafficSystemRandom)
+			}
+			send(b, m2)
 		case byzWrongContentThenShort:
 			// the member's valid share, labelled with another content; then the right content with a
 			// signature too short to hold coordinates
@@ -549,9 +561,67 @@ func genC01System(rng *hx.Rng, tier string, w *hx.Writer) {
 	}
 }
 
+// exactly a threshold of valid shares, one of them in a packet labelled with another traffic type and
+// arriving last; everybody else silent
+func genC01OtherType(rng *hx.Rng, tier string, w *hx.Writer) {
+	reps := 1
+	if tier == "thorough" {
+		reps = 4
+	}
+	for rep := 0; rep < reps; rep++ {
+		for n := 3; n <= 5; n++ {
+			for _, pType := range []uint32{uint32(onchain.TrafficSystemRandom), uint32(onchain.TrafficUserRandom)} {
+				t := n/2 + 1
+				lastRand, reqID, seed := c07Rand(rng), c07Rand(rng), c07Rand(rng)
+				subIdx := int(new(big.Int).Mod(new(big.Int).And(lastRand, new(big.Int).SetUint64(^uint64(0))), big.NewInt(int64(n))).Int64())
+				byz := map[int]byzKind{}
+				// honest: the submitter and t-2 others; one valid-but-relabelled; the rest silent
+				others := []int{}
+				for i := 0; i < n; i++ {
+					if i != subIdx {
+						others = append(others, i)
+					}
+				}
+				byz[others[0]] = byzValidOtherType
+				for k := 1 + (t - 2); k < len(others); k++ {
+					byz[others[k]] = byzSilent
+				}
+				o, ids, coeffs := runQuerySystem(rng, n, lastRand, reqID, seed, pType, byz, nil, 6*time.Second)
+				oracle := "ok"
+				total := 0
+				for i := range o.reports {
+					total += len(o.reports[i])
+				}
+				wantKind := "DataReturn"
+				if pType == uint32(onchain.TrafficSystemRandom) {
+					wantKind = "UpdateRandomness"
+				}
+				switch {
+				case o.panicked:
+					oracle = hx.Fail("node-panic", "a node goroutine panicked: "+hx.LastPanic)
+				case len(o.reports[subIdx]) != 1 || total != 1:
+					oracle = hx.Fail("not-exactly-one-report", fmt.Sprintf("a threshold of valid shares reached the submitter (one of them in a packet labelled with another traffic type) and %d reports were made", total))
+				default:
+					r := o.reports[subIdx][0]
+					pk := PtBytes(Pt(Bn.G2(), coeffs[0], BnQ))[1:]
+					signed := append(append([]byte{}, r.Sig.Content...), ids[subIdx]...)
+					if r.Kind != wantKind {
+						oracle = hx.Fail("wrong-report-call", "the report went to "+r.Kind+" instead of "+wantKind+" (the last share's packet was labelled with another traffic type)")
+					} else if acc, ok := evmVerify(pk, signed, r.Sig.Signature); !ok || !acc {
+						oracle = hx.Fail("invalid-report", "the reported (result, signature) fails the contract equation")
+					}
+				}
+				w.Put(hx.Case{Entry: "-", Op: 0, Args: hx.L(hx.Zi(n), hx.Zi(int(pType))), Impl: hx.L(hx.Zi(total)), Oracle: oracle,
+					Tags: []string{"system", "relabelled-traffic-type", fmt.Sprintf("n%d", n), "nt"}})
+			}
+		}
+	}
+}
+
 func genC01(rng *hx.Rng, tier string, w *hx.Writer) error {
 	genC01Stage(rng, tier, w)
 	genC01System(rng, tier, w)
+	genC01OtherType(rng, tier, w)
 	return nil
 }
 
